@@ -1,4 +1,5 @@
 import AcraModel.Proxy.Placement
+import AcraModel.Proxy.LitCoder
 import AcraModel.Envelope.Detector
 /-
 Pipeline: what happens to ONE value on the way to the database (write chain) and on the way back
@@ -11,9 +12,10 @@ Write side (PostgreSQL front end):
 Read side: `PgSQLDataDecoderProcessor` → `OldContainerDetectorWrapper(EnvelopeDetector[decrypt])` → `PgSQLDataEncoderProcessor`
 (the subscriber order is the regenerated fact `Generated.Wiring.pgSubscriberOrder`).
 
-Domain assumptions (stated where used, respected by the generators): text that goes through
-`utils.DecodeOctal` is valid UTF-8 without C1 control characters (the Go code works on runes; on
-such input it is the byte-level function below); `response_on_fail` is the default (`ciphertext`);
+Domain assumptions (stated where used, respected by the generators): text-format bound parameters and result
+columns that go through `utils.DecodeOctal` are valid UTF-8 without C1 control characters (the Go code works on
+runes; on such input it is the byte-level function below) – string LITERALS go through the rune-level model
+(`decodeLit` = `LitCoder.pgDecodeSval`) without any assumption; `response_on_fail` is the default (`ciphertext`);
 poison-record callbacks are not configured.
 -/
 namespace AcraModel.Proxy
@@ -168,13 +170,10 @@ def chainUsed (s : ColSetting) (data : Bytes) : Nat := if passthrough s.kind dat
 /-- OID class of the setting: `GetDBDataTypeID() != 0 && != ByteaOID` -/
 def ColSetting.textTyped (s : ColSetting) : Bool := s.dtype == .str
 
-/-- `PgQueryDBDataCoder.Decode` of a string literal: `none` = error (hex) -/
-def decodeLit (s : ColSetting) (lit : Bytes) : Option Bytes :=
-  if s.textTyped then some lit else
-  match decodeEscaped lit with
-  | .ok b => some b
-  | .octalErr => some lit
-  | .hexErr => none
+/-- `PgQueryDBDataCoder.Decode` of a string literal: `none` = error (hex). The faithful model
+(`LitCoder.pgDecodeSval`: rune-level `DecodeOctal`, the slice `DecodeEscaped` returns next to its error read from
+the source) – EVERY byte string is in its domain. -/
+def decodeLit (s : ColSetting) (lit : Bytes) : Option Bytes := pgDecodeSval s.textTyped lit
 
 /-- `PgQueryDBDataCoder.Encode` / `setEncryptedData` (text format): printable strings of text-typed
 columns stay as they are, everything else becomes a hex bytea literal -/
@@ -206,14 +205,17 @@ def forwardStmt (c : CryptoOps) (kv : KeyView) (sch : Schema) (s : Stmt) (rnd : 
 inductive Fmt | text | binary
 deriving DecidableEq, Repr
 
-/-- `pgBoundValue.GetData` for an `OnlyEncryption` setting without integer data type -/
+/-- `pgBoundValue.GetData` for an `OnlyEncryption` setting without integer data type: text that is not escaped
+bytea (`ErrDecodeOctalString`) is processed as it is (the `fix:` commit 8c178a7 – `GetData` returns its OWN copy
+`p.data` there, whatever `DecodeEscaped` hands back next to the error); a hex error is returned -/
 def getData (fmt : Fmt) (data : Bytes) : Option Bytes :=
   match fmt with
   | .binary => some data
   | .text =>
     match decodeEscaped data with
     | .ok b => some b
-    | _ => none
+    | .octalErr => some data
+    | .hexErr => none
 
 /-- `pgBoundValue.SetData` → `setEncryptedData` -/
 def setData (s : ColSetting) (fmt : Fmt) (nd : Bytes) : Bytes :=
